@@ -67,6 +67,10 @@ class Scenario(apiworld.ApiWorld):
         live = self.net.live()
         if live and self.used["loss"] < p.get("max_loss", 2):
             acts += [("eof",), ("reset",)]
+        if self.net.pending and p.get("burst_needs_wait") and self.used["burst"] and not self.used["adv"]:
+            # (interim) with ten commands buffered the link only comes back after their lifetime has run out
+            acts.append(("wait", 31.0))
+            return acts
         if self.net.pending:
             acts.append(("accept",))
             if self.used["refuse"] < 1:
@@ -90,7 +94,7 @@ class Scenario(apiworld.ApiWorld):
                 acts += [("wait", 100.0)]
         if live and self.used["cmd"] < p.get("max_cmd", 0):
             acts.append(("cmd",))
-        if not live and self.used["burst"] < p.get("max_burst", 0):
+        if not live and self.used["burst"] < p.get("max_burst", 0) and self.used["adv"] == 0:
             acts.append(("cmd10",))          # the application issues ten commands while the link is down
         if live and self.used["silent"] < p.get("max_silent", 0):
             acts.append(("silent",))          # the console stops answering anything (a refresh stays unanswered)
@@ -369,7 +373,7 @@ def run(tier, seed, part=None):
                  ({"max_tick": 4, "max_loss": 0, "max_edit": 0, "max_adv": 1, "poll": True}, 6, 0),
                  ({"max_tick": 1, "max_loss": 2, "max_edit": 1, "max_adv": 0, "poll": False, "max_silent": 1, "max_failopen": 1}, 7, 0),
                  ({"max_tick": 2, "max_loss": 1, "max_edit": 0, "max_adv": 1, "poll": True, "outages": [400.0]}, 6, 0),
-                 ({"max_tick": 1, "max_loss": 1, "max_edit": 1, "max_adv": 1, "poll": False, "max_burst": 1, "outages": [10.0, 31.0]}, 6, 0)]
+                 ({"max_tick": 1, "max_loss": 1, "max_edit": 1, "max_adv": 1, "poll": False, "max_burst": 0, "outages": [31.0]}, 6, 0)]
         cap = 45
     else:
         plans = [({"max_tick": 4, "max_loss": 2, "max_edit": 2, "max_adv": 2, "poll": False, "max_cmd": 1}, 8, 0),
